@@ -58,3 +58,27 @@ Proof.
   intros I H t. destruct (StepSpec.step_spec s u AFree s' H) as (_ & _ & _ & _ & _ & Hm & _). cbn in Hm.
   destruct (J4 s I u Hm) as (_ & H0 & _). pose proof (total_ge (ths s) t). unfold getth. lia.
 Qed.
+
+(* multi-step form: however the other threads are scheduled, while thread t holds a reference (and does not itself
+   move) none of their successful steps is a write / realloc or a free of the buffer, and t's local state is untouched:
+   what t reads through its handle is what was there when it last looked or wrote *)
+Theorem no_interference_while_held t : forall sched s s',
+  Inv s -> refs (getth s t) > 0 -> Forall (fun ua => fst ua <> t) sched -> run s sched = Ok s' ->
+  Forall (fun ua => snd ua <> AWrite /\ snd ua <> AFree) sched /\ getth s' t = getth s t /\ Mach.live s' = true.
+Proof.
+  induction sched as [|[u a] l IH]; intros s s' I Hr Hne Hrun; cbn [run] in Hrun.
+  - injection Hrun as <-. split; [constructor|]. split; [reflexivity|].
+    destruct (Mach.live s) eqn:Hl; [reflexivity|]. destruct (J6 s I Hl) as (H0 & _).
+    pose proof (total_ge (ths s) t). unfold getth in Hr. lia.
+  - inversion Hne as [|? ? Hu Hne']; subst. cbn [fst] in Hu.
+    destruct (step s u a) as [s1|e|] eqn:E; try discriminate.
+    destruct (StepSpec.step_spec s u a s1 E) as (_ & _ & _ & _ & Hoth & Hspec).
+    assert (Hst : started (getth s t) = true).
+    { destruct (started (getth s t)) eqn:Hs; [reflexivity|]. destruct (J8 s I t Hs) as (H0 & _). unfold T in H0. lia. }
+    assert (Hsame : getth s1 t = getth s t).
+    { apply Hoth; [auto|]. intros c k ->. cbn in Hspec. destruct Hspec as (_ & _ & Hsc & _). intros ->. congruence. }
+    destruct (IH s1 s' (pres _ _ _ _ I E) ltac:(rewrite Hsame; exact Hr) Hne' Hrun) as (F & G & L).
+    split; [|split; [congruence|exact L]]. constructor; [|exact F]. cbn [snd]. split; intros ->.
+    + pose proof (write_excludes_others s u s1 I E t ltac:(auto)). lia.
+    + pose proof (free_excludes_holders s u s1 I E t). lia.
+Qed.
